@@ -24,7 +24,27 @@ impl Scenario for C04 {
         g.listeners = false;
         g.body_factor = 1;
         g.drain_all = true;
-        let gen = gen_session(&mut cs, &g);
+        let mut gen = gen_session(&mut cs, &g);
+        // the server cancels some consumers on its own; the client's later cancel of the same consumer
+        // is still a synchronous call that must return with the server's CancelOk
+        let mut next_id = 1u16;
+        let mut server_cancels = 0;
+        for t in gen.plan.threads.iter() {
+            let base = next_id;
+            next_id += t.chan_ids.len() as u16;
+            let mut per_slot: std::collections::BTreeMap<usize, u32> = Default::default();
+            for (slot, op) in &t.ops {
+                if let crate::client::Op::Consume { .. } = op {
+                    let nth = *per_slot.entry(*slot).or_insert(0);
+                    per_slot.insert(*slot, nth + 1);
+                    if cs.choose("server_cancel", 3) == 0 {
+                        let at = 100_000 + cs.choose("server_cancel_at_us", 20_000) as u64 * 1000;
+                        gen.broker.script.push((crate::broker::Trigger::AtTime(at), crate::broker::Action::CancelConsumer { ch: base + *slot as u16, nth_consumer: nth, nowait: cs.choose("nowait", 2) == 1 }));
+                        server_cancels += 1;
+                    }
+                }
+            }
+        }
         let (res, world) = run_generated(&gen, cs, text, |_| {});
         let mut rep = CaseReport::default();
         fill_common(&mut rep, &res, &world);
@@ -39,6 +59,7 @@ impl Scenario for C04 {
         if rep.inconclusive.is_some() {
             return rep;
         }
+        rep.count("c04.server_cancels_scripted", server_cancels);
         rpc_oracle(&mut rep, &res.hist, &world.broker);
         // non-trivial: overlapping calls on different channels
         let mut overlap = false;
